@@ -18,15 +18,16 @@ type Event struct {
 	Args     []Value
 	Results  []Value
 	Panicked bool
+	PanicVal Value // the value the call panicked with (panicking events)
 	Index    int
 	// loop-summary events: what the iterations already run may have emitted
-	Tokens map[string]bool
-	Wild   bool
-	Dyn    bool
-	ID     int
-	Root   bool            // a loop of the function under verification (not of an inlined callee)
+	Tokens   map[string]bool
+	Wild     bool
+	Dyn      bool
+	ID       int
+	Root     bool            // a loop of the function under verification (not of an inlined callee)
 	HeapPost map[string]Term // opaque calls: the heap right after the callee returned (for after(event, e))
-	Heap   map[string]Term // lock / recv events: the heap right after the event; opaque calls: the heap the callee saw (for at(event, e))
+	Heap     map[string]Term // lock / recv events: the heap right after the event; opaque calls: the heap the callee saw (for at(event, e))
 }
 
 type deferred struct {
